@@ -4,7 +4,7 @@ From Coq Require Import List NArith.
 From Coq.Strings Require Import Byte.
 From Coq Require Import Extraction ExtrOcamlBasic.
 From GI Require Import Gen.LockedFileConsts LockedFile.LockedFile LockedFile.LockedFileA.
-From GI Require Import LockedFile.Policy.
+From GI Require Import LockedFile.Policy LockedFile.Handles.
 Extraction Language OCaml.
 Extraction "extracted/lockedfile/model.ml" Byte.of_N Byte.to_N
   prog_of_call client_prog write_body read_body run_seq run_body fault_at no_faults os_with fresh_fd
@@ -12,4 +12,5 @@ Extraction "extracted/lockedfile/model.ml" Byte.of_N Byte.to_N
   init_state exec run mutex_lock mutex_at mutex_string can_grant drop
   run_seq_a prog_of_call_a default_attr exec_a run_a init_state_a
   run_pol run_body_pol no_fault_pol pol_of_plan limit_pol class_pol cs_never writer_call copy_body
-  opens closes write_outcome.
+  opens closes write_outcome
+  hinit htrace.
